@@ -1,0 +1,64 @@
+//! Verification hooks, compiled only with `--cfg kismet_verif`.
+//!
+//! They let an external harness script the values produced by the random
+//! sources (maintenance trigger draws, random shard choice) and inspect or set
+//! the per-thread trigger counter.  With the cfg flag off this module does not
+//! exist and the library behaves exactly as before.
+use std::cell::RefCell;
+use std::collections::VecDeque;
+
+std::thread_local! {
+    static DRAWS: RefCell<VecDeque<u64>> = const { RefCell::new(VecDeque::new()) };
+    static SHARDS: RefCell<VecDeque<u64>> = const { RefCell::new(VecDeque::new()) };
+    static DRAWS_USED: RefCell<u64> = const { RefCell::new(0) };
+}
+
+/// Appends scripted values for the trigger's `next_u64` draws (this thread).
+pub fn push_trigger_draws(values: &[u64]) {
+    DRAWS.with(|d| d.borrow_mut().extend(values.iter().copied()));
+}
+
+/// Appends scripted values for `random_shard_id` (reduced modulo the shard count).
+pub fn push_shard_draws(values: &[u64]) {
+    SHARDS.with(|d| d.borrow_mut().extend(values.iter().copied()));
+}
+
+/// Drops every scripted value.
+pub fn clear_scripts() {
+    DRAWS.with(|d| d.borrow_mut().clear());
+    SHARDS.with(|d| d.borrow_mut().clear());
+}
+
+/// Number of scripted trigger draws consumed so far on this thread.
+pub fn trigger_draws_used() -> u64 {
+    DRAWS_USED.with(|d| *d.borrow())
+}
+
+pub(crate) fn scripted_u64(fallback: u64) -> u64 {
+    DRAWS.with(|d| match d.borrow_mut().pop_front() {
+        Some(v) => {
+            DRAWS_USED.with(|u| *u.borrow_mut() += 1);
+            v
+        }
+        None => fallback,
+    })
+}
+
+pub(crate) fn scripted_shard(num_shards: usize) -> Option<usize> {
+    SHARDS.with(|d| d.borrow_mut().pop_front()).map(|v| (v % (num_shards.max(1) as u64)) as usize)
+}
+
+/// Reads the calling thread's trigger counter (0 = uninitialised).
+pub fn trigger_counter() -> u64 {
+    crate::trigger::verif_counter(None)
+}
+
+/// Overwrites the calling thread's trigger counter.
+pub fn set_trigger_counter(value: u64) {
+    crate::trigger::verif_counter(Some(value));
+}
+
+/// One `weighted_event(count)` of a fresh `PeriodicTrigger::new(period)`.
+pub fn trigger_event(period: u64, count: u64) -> bool {
+    crate::trigger::PeriodicTrigger::new(period).weighted_event(count)
+}
